@@ -6,7 +6,7 @@ namespace Driver.Watch
 def fsOfName (n : String) : Option FsOp :=
   match n with
   | "writeInPlace" | "writeViaTemp" | "rewrite" | "unlink" | "renameAway" => some .writeSpec
-  | "moveIn" | "linkIn" | "creatEmpty" => some .moveIn
+  | "moveIn" | "linkIn" | "creatEmpty" | "moveInOld" | "linkInOld" => some .moveIn
   | "tempFile" => some .tempFile
   | "rmdir" => some .rmdir
   | "mkdir" => some .mkdir
